@@ -348,6 +348,12 @@ func (rd *realDecoder) getStringArray() ([]string, error) {
 		return nil, errInvalidArrayLength
 	}
 
+	if rd.remaining() < 2*n {
+		// every string takes at least its two length bytes
+		rd.off = len(rd.raw)
+		return nil, ErrInsufficientData
+	}
+
 	ret := make([]string, n)
 	for i := range ret {
 		str, err := rd.getString()
